@@ -43,11 +43,20 @@ fn router_world(ctx: &mut Ctx) {
     for i in 0..k {
         // "present but empty" is what libzmq peers announce by default: it means anonymous, the
         // socket must assign a unique identity just as when the property is absent
-        let identity = match ctx.plan(5) {
+        // announced identities are arbitrary bytes: the shapes include a leading zero byte (which
+        // libzmq reserves for generated identities, but which a peer may announce), all zeros,
+        // embedded zeros, 0xff, and a prefix of another peer's identity
+        let identity = match ctx.plan(11) {
             0 => None,
             1 => Some(vec![b'A' + i as u8]),
             2 => Some((0..16).map(|j| (i * 16 + j + 1) as u8).collect()),
             3 => Some((0..255).map(|j| ((i * 7 + j) % 251 + 1) as u8).collect()),
+            4 => Some(vec![0, i as u8 + 1]),
+            5 => Some(vec![0; i + 1]),
+            6 => Some(vec![b'x', 0, i as u8, 0]),
+            7 => Some(vec![0xff; i + 2]),
+            8 => Some(b"pfx"[..].iter().copied().chain(std::iter::repeat(b'-').take(i)).collect()),
+            9 => Some(vec![0, 0xde, 0xad, 0xbe, i as u8]),
             _ => Some(vec![]),
         };
         plans.push(PeerPlan { stype: ["DEALER", "REQ", "ROUTER"][ctx.plan(3) as usize], identity, inbound: 1 + ctx.plan(4) as usize, departs: k > 1 && ctx.plan(4) == 0, start_yields: ctx.plan(8) as u32 });
@@ -56,11 +65,37 @@ fn router_world(ctx: &mut Ctx) {
     let mut targets = Vec::new();
     for _ in 0..nsends {
         let t = match ctx.plan(6) {
-            0 => Target::Unknown(match ctx.plan(4) {
+            0 => Target::Unknown(match ctx.plan(7) {
                 0 => vec![],
                 1 => vec![0xEE; 256],
                 2 => vec![0xEE],
-                _ => (0..17).map(|j| 200 + j as u8).collect(),
+                3 => (0..17).map(|j| 200 + j as u8).collect(),
+                // near misses of a connected peer's announced identity: one byte longer, one byte
+                // shorter, last byte changed (routing is by equality, not by prefix)
+                m => {
+                    let j = ctx.plan(k as u64) as usize;
+                    let cand = match plans[j].identity.clone().filter(|x| !x.is_empty()) {
+                        Some(mut id) => {
+                            match m {
+                                4 => id.push(0x7f),
+                                5 => {
+                                    id.pop();
+                                }
+                                _ => {
+                                    let l = id.len() - 1;
+                                    id[l] ^= 0x40;
+                                }
+                            }
+                            id
+                        }
+                        None => vec![0xEE, 0xEE],
+                    };
+                    if cand.is_empty() || cand.len() > 255 || plans.iter().any(|p| p.identity.as_ref() == Some(&cand)) {
+                        vec![0xEE, 0xEF]
+                    } else {
+                        cand
+                    }
+                }
             }),
             _ => {
                 let i = ctx.plan(k as u64) as usize;
@@ -168,7 +203,8 @@ fn router_world(ctx: &mut Ctx) {
         for (n, t) in targets2.iter().enumerate() {
             let body = tagged(99, n as u32, &shapes[n]);
             let (id, expect_peer): (Vec<u8>, Option<usize>) = match t {
-                Target::Peer(i) => match labels[*i].clone().or(plans2[*i].identity.clone().filter(|x| !x.is_empty())) {
+                // the announced identity is the address (the label learnt from recv only where none was announced)
+                Target::Peer(i) => match plans2[*i].identity.clone().filter(|x| !x.is_empty()).or(labels[*i].clone()) {
                     Some(l) => (l, Some(*i)),
                     None => continue, // label never learnt (peer sent nothing we saw)
                 },
@@ -263,7 +299,7 @@ pub fn def() -> PropDef {
     PropDef {
         id: "C09",
         level: "exploration",
-        rule: "one case = ROUTER socket with 1..4 scripted peers (DEALER/REQ/ROUTER; identity none, 1, 16 or 255 bytes), each sending 1..4 tagged messages at drawn times, some departing after the handshake; then 1..8 routed sends to targets drawn from {each peer, departed peer, unknown identity (empty, 1, 17, 256 bytes)}; taps snapshotted around every send; transport and schedule drawn per case; non-trivial = more than one peer and at least one routed send judged; distinct = distinct (plan, schedule, transport) hashes",
+        rule: "one case = ROUTER socket with 1..4 scripted peers (DEALER/REQ/ROUTER; identity none, empty, or announced: 1, 16 or 255 bytes, leading zero byte, all zeros, embedded zeros, 0xff bytes, one a prefix of another), each sending 1..4 tagged messages at drawn times, some departing after the handshake; then 1..8 routed sends to targets drawn from {each peer, departed peer, unknown identity (empty, 1, 17, 256 bytes, near misses of a connected peer's identity: one byte longer / shorter / last byte changed)}; taps snapshotted around every send; transport and schedule drawn per case; non-trivial = more than one peer and at least one routed send judged; distinct = distinct (plan, schedule, transport) hashes",
         assumptions: &["announced identities are unique (the generator never duplicates them)", "single-frame sends are outside the statement (the socket asserts on them)", "a departed peer is used as a target only once its connection is closed"],
         strata: vec![Stratum { name: "router_world", quick: 120_000, thorough: (2_000_000) * 5, exhaustive: (false, false), run: router_world, what: "labelling of inbound messages and routing of outbound ones, checked on connection taps" }],
     }
